@@ -772,7 +772,10 @@ func TestDriverBytes(t *testing.T) {
 		emit := func(q qresult, survived bool) {
 			seen[q.Idx] = true
 			side.Count(fmt.Sprintf("qprobe:%s:%s:class=%d:survived=%v", q.Entry, q.Class, q.QClass, survived))
-			if q.Model {
+			if q.Model && survived && q.Timeout == "none" && q.Ms > 1500 {
+				// the default trace timeout is 5 s of wall clock: on a machine this slow the answer's class is not the code's doing
+				side.Count("skipped:qprobe-slow-with-default-timeout")
+			} else if q.Model {
 				cases.Add(fmt.Sprintf("(TTrace %s %s %s %s %s %s)", CqBool(q.Entry == "TraceBlock"), CqBool(q.LimNeg),
 					map[string]string{"none": "ToNone", "garbage": "ToGarbage", "elapsed": "ToElapsed", "future": "ToFuture"}[q.Timeout],
 					map[string]string{"default": "TrDefault", "native": "TrNative", "js": "TrJs", "invalid": "TrInvalid"}[q.Tracer],
@@ -792,6 +795,10 @@ func TestDriverBytes(t *testing.T) {
 		}
 		side.Extra["query_probes"] = len(qr.Results)
 		side.Extra["query_probe_child_died"] = qr.Died
+		if qr.Inconclusive {
+			side.Count("skipped:query-probe-child-ended-without-verdict")
+			side.Extra["query_probe_child_output_tail"] = tail(qr.Output, 1500)
+		}
 		if qr.Died {
 			last := qresult{QClass: 1}
 			entry, class := "unknown", "unknown"
@@ -816,7 +823,7 @@ func TestDriverBytes(t *testing.T) {
 					"the node process died while (or right after) answering a query: a panic in a goroutine started by the handler is recovered by nothing",
 					map[string]interface{}{"probe": last, "stderr": crashExcerpt(qr.Output, 2500)})
 			}
-		} else if qr.FinalCls != 0 {
+		} else if !qr.Inconclusive && qr.FinalCls > 0 {
 			side.Hit("C20/bytes/Query/node-degraded-after-probes", fmt.Sprintf("the default trace after all probes was answered with class %d", qr.FinalCls), nil)
 		}
 	}
